@@ -130,7 +130,7 @@ def run_group(group, tier="quick", seed=0):
         out["reason"] = "unknown kani group"
         return out
     t0 = time.time()
-    wanted = [h for h in g["harnesses"] if tier == "thorough" or h.get("tier", "quick") == "quick"]
+    wanted = [h for h in g["harnesses"] if h.get("tier", "quick") != "disabled" and (tier == "thorough" or h.get("tier", "quick") == "quick")]
     try:
         scratch, cdir = _prepare(group)
     except Exception as e:
@@ -141,26 +141,38 @@ def run_group(group, tier="quick", seed=0):
             htxt = f.read()
         out["trusted"] = sorted(set(re.sub(r"\s+", " ", ln.strip()) for ln in htxt.split("\n")
                                     if re.search(r"kani::assume|kani::stub|TRUSTED", ln)))
-        cmd = ["cargo", "kani", "-Z", "function-contracts", "-Z", "stubbing", "--output-format", "regular",
-               "-j", str(g.get("jobs", 8))]
+        base = ["cargo", "kani", "-Z", "function-contracts", "-Z", "stubbing", "--output-format", "regular"]
         if g.get("loop_contracts"):
-            cmd += ["-Z", "loop-contracts"]
-        cmd += g.get("extra_args", [])
-        for h in wanted:
-            cmd += ["--harness", h["name"]]
-        env = dict(os.environ)
-        env["CARGO_NET_OFFLINE"] = "true"
-        env["CARGO_TARGET_DIR"] = os.path.join(scratch, "target")
-        out["cmd"] = "(scratch copy of crates/%s) " % g["crate"] + " ".join(cmd)
+            base += ["-Z", "loop-contracts"]
+        base += g.get("extra_args", [])
+        # `cargo kani -j` only exists with terse output (no per-check results), so parallelism is done here:
+        # the harnesses are dealt round-robin to `jobs` cargo-kani processes, each with its own target dir.
+        jobs = max(1, min(int(g.get("jobs", 8)), len(wanted)))
+        buckets = [[] for _ in range(jobs)]
+        for i, h in enumerate(sorted(wanted, key=lambda h: -h.get("cost", 1))):
+            buckets[i % jobs].append(h)
+        out["cmd"] = "(scratch copy of crates/%s, %d parallel processes) " % (g["crate"], jobs) + " ".join(base) + " --harness <each>"
         timeout = g.get("timeout_s", 1500) * (3 if tier == "thorough" else 1)
-        try:
-            p = subprocess.run(cmd, cwd=cdir, stdout=subprocess.PIPE, stderr=subprocess.STDOUT, text=True,
-                               timeout=timeout, env=env)
-            text = p.stdout
-            rc = p.returncode
-        except subprocess.TimeoutExpired as e:
-            text = (e.stdout.decode() if isinstance(e.stdout, bytes) else (e.stdout or "")) + "\nTIMEOUT"
-            rc = -9
+
+        def run_bucket(bi):
+            cmd = list(base)
+            for h in buckets[bi]:
+                cmd += ["--harness", h["name"]]
+            env = dict(os.environ)
+            env["CARGO_NET_OFFLINE"] = "true"
+            env["CARGO_TARGET_DIR"] = os.path.join(scratch, "target%d" % bi)
+            try:
+                p = subprocess.run(cmd, cwd=cdir, stdout=subprocess.PIPE, stderr=subprocess.STDOUT, text=True,
+                                   timeout=timeout, env=env)
+                return p.stdout, p.returncode
+            except subprocess.TimeoutExpired as e:
+                return (e.stdout.decode() if isinstance(e.stdout, bytes) else (e.stdout or "")) + "\nTIMEOUT", -9
+
+        import concurrent.futures as cf
+        with cf.ThreadPoolExecutor(max_workers=jobs) as ex:
+            outs = list(ex.map(run_bucket, range(jobs)))
+        text = "\n".join(o for o, _ in outs)
+        rc = -9 if any(r == -9 for _, r in outs) else max(r for _, r in outs)
         os.makedirs(os.path.join(VERIF, ".build", "kani"), exist_ok=True)
         with open(os.path.join(VERIF, ".build", "kani", group + ".log"), "w") as f:
             f.write(text)
